@@ -100,6 +100,25 @@ def scalar_tags(prog, chk, rid):
                         e = b["succ"][0] if mm.group(1) == "==" else b["succ"][1]
                         if e is not None:
                             tests.add((e, 0))
+                        continue
+                    # the tag test kept in a bool local (`const bool typeChanges = data->type != boolType; if(typeChanges) ...`), or negated
+                    if b.get("tk") == "SwitchStmt" or None in b["succ"]:
+                        continue
+                    defs_g = q.local_defs(f)
+                    for kk in (0, 1):
+                        ats = list(q.cond_atoms(f, c, kk == 0))
+                        for an_, tr_ in list(ats):
+                            xn_ = f.nodes[f.strip(an_)]
+                            if xn_["k"] == "DeclRefExpr" and xn_["ref"].get("dk") == "local":
+                                ini_ = q.single_def(f, xn_["ref"]["id"], defs_g)
+                                if ini_ is not None:
+                                    ats += list(q.cond_atoms(f, ini_, tr_))
+                        for an_, tr_ in ats:
+                            cn_ = f.nodes[f.strip(an_)]
+                            if cn_["k"] == "BinaryOperator" and cn_.get("op") in ("==", "!=") and len(cn_["c"]) == 2 and \
+                               "this->data->type" in [fin.key(f, x_) for x_ in cn_["c"]] and want in [fin.eval_expr(f, x_, {}) for x_ in cn_["c"]] and \
+                               (cn_["op"] == "==") == bool(tr_):
+                                tests.add((b["succ"][kk], 0))
                 avoid = q.pos_of(f, sets) | tests
                 pth = f.find_path(f.entry_pos(), {pos}, avoid=avoid, after_src=False)
                 if pth is None and (sets or tests):
